@@ -240,8 +240,20 @@ def r3(ctx, new):
 def r4(ctx):
     rep = ctx.rep
     facts = ctx.facts
-    mb = facts.one_fn('ristretto_masking_basepoints::{closure#0}')
-    cb = facts.one_fn('ristretto_compressed_masking_basepoints::{closure#0}')
+    # the initialiser closures of the two once-cells: the one storing points hashed from labels, and the one compressing them
+    mb = cb = None
+    inits = []
+    for st in facts.statics:
+        owner = facts.fn.get(st['path'].rsplit('::', 1)[0])
+        if owner is not None:
+            for c in facts.closures_of(owner):
+                inits.append((st, owner, c))
+    for st, owner, c in inits:
+        names = {callee_decl(t).split('::')[-1] for _, t in ctx.calls(c)}
+        if 'hash_from_bytes_sha3_512' in names:
+            mb, mb_owner = c, owner
+        elif 'compress' in names:
+            cb = c
     hf = ctx.fn('CurvePointProtocol::hash_from_bytes_sha3_512', 'R-C11-4')
     pg = ctx.fn('create_pedersen_gens_with_extension_degree', 'R-C11-4')
     if mb is None or cb is None:
@@ -279,7 +291,7 @@ def r4(ctx):
             if idxl:
                 it = ctx.eng.local(cb, st2[0]['bb'], st2[0]['idx'], idxl[0])
                 same_index = it.tag == 'index' and any(x.tag == 'elem' and x[1] is it[1] for x in walk(val))
-            ok2 = det2.startswith('compress(each(get_or_init(') and same_index and any(callee_name(t2).endswith('ristretto_masking_basepoints') for _, t2 in ctx.calls(cb))
+            ok2 = det2.startswith('compress(each(get_or_init(') and same_index and any(callee_name(t2) == mb_owner.path for _, t2 in ctx.calls(cb))
         rep.check(ok2, 'R-C11-4', 'R-C11-4/compressed-generators', 'compressed[i] = compress(generator[i]) for the same enumerate index over the uncompressed array',
                   'compressed generators are %s' % det2, ctx.where(cb))
     if hf is not None:
@@ -305,7 +317,7 @@ def r4(ctx):
                 sa = [x for x in walk(a) if x.tag == 'static']
                 sb = [x for x in walk(b) if x.tag == 'static']
                 ra, rb = canon(a).split('[')[-1], canon(b).split('[')[-1]
-                ok = bool(sa) and bool(sb) and sa[0][1] != sb[0][1] and 'ristretto_masking_basepoints' in sa[0][1] and 'compressed' in sb[0][1] and ra == rb and 'RangeTo' in ra
+                ok = bool(sa) and bool(sb) and sa[0][1] != sb[0][1] and mb is not None and cb is not None and sa[0][1].startswith(mb_owner.path + '::') and sb[0][1].startswith(cb.path.rsplit('::', 1)[0] + '::') and ra == rb and 'RangeTo' in ra
             rep.check(ok, 'R-C11-4', 'R-C11-4/same-prefix', 'points and compressed points handed out are the same prefix [..degree] of the two arrays', 'get_g_base returns %s' % short(rtg, 200), ctx.where(gb))
 
 
@@ -319,7 +331,7 @@ def r5(ctx):
     # COUNT as evaluated by the compiler: the length of the arrays held by the statics' initialisers
     counts = set()
     for b in ctx.facts.fns():
-        if 'masking_basepoints::{closure' in b.path:
+        if b.is_closure and any(st['path'].rsplit('::', 1)[0] == b.parent for st in ctx.facts.statics):
             for blk in b.blocks:
                 for s in blk['stmts']:
                     if s['k'] == 'assign' and s['rv']['k'] == 'repeat':
